@@ -237,7 +237,58 @@ class Plan:
         self.parse_every = 1 if thorough else 3      # Lean parse enumeration for every k-th instance
 
 
-def class_instances(cfg, gen, cls, plan, rng, reduced):
+BOUND_FIXED = [0, 1, -1]
+BOUND_MAX = [0xFFFFFFFF, 0x7FFFFFFF, 65536, 65535, 32768, 32767, 4096, 4095, 2048, 2047, 1024, 1023, 256, 255, 128, 127, 64, 63,
+             32, 31, 16, 15, 8, 7, 4, 3, 2]
+BOUND_MIN = [-0x80000000, -32769, -32768, -2049, -2048, -257, -256, -129, -128, -64, -32, -16, -8, -4, -2]
+FULL_BOUNDARY = ("arm", "thumb", "x86_64", "riscv")       # quick tier: boundary pass for every class of these
+
+
+def int_paths(spec, prefix=()):
+    """paths (argument indices) of every integer operand, also inside nested constructor operands"""
+    out = []
+    for i, a in enumerate(spec.args):
+        if isinstance(a, E.Spec):
+            out.extend(int_paths(a, prefix + (i,)))
+        elif isinstance(a, int) and not isinstance(a, bool):
+            out.append(prefix + (i,))
+    return out
+
+
+def with_int(spec, path, v):
+    args = list(spec.args)
+    if len(path) == 1:
+        args[path[0]] = v
+    else:
+        args[path[0]] = with_int(args[path[0]], path[1:], v)
+    return E.Spec(spec.cls, args)
+
+
+def boundary_instances(cfg, gen, base, rng, small):
+    """for every integer operand of `base` (nested ones too): 0, 1, -1, the largest and the smallest value ppci
+    encodes (probed downwards through powers of two +-1) and one random encodable value; other operands as in base"""
+    out = []
+    for path in int_paths(base):
+        vals = []
+        for v in BOUND_FIXED:
+            if gen.encodable(with_int(base, path, v)):
+                vals.append(v)
+        for pool in ((BOUND_MAX, BOUND_MIN) if not small else ([300, 255, 16], [])):
+            for v in pool:
+                if gen.encodable(with_int(base, path, v)):
+                    vals.append(v)
+                    break
+        for _ in range(6):
+            v = rng.randint(0, 300) if small else rng.choice([rng.randint(-40, 40), rng.randint(-5000, 5000), rng.randint(-70000, 70000)])
+            if gen.encodable(with_int(base, path, v)):
+                vals.append(v)
+                break
+        for v in vals:
+            out.append(with_int(base, path, v))
+    return out
+
+
+def class_instances(cfg, gen, cls, plan, rng, reduced, boundary=True):
     """instances of one class: systematic (seed independent) then seeded random"""
     from ppci.arch.registers import Register
     small = E.size_by_value(cls)
@@ -255,6 +306,7 @@ def class_instances(cfg, gen, cls, plan, rng, reduced):
         n_rand = plan.n_rand
     out, seen, fails = [], set(), 0
     srng = random.Random(f"{cfg.key}:{cfg.name_of[cls]}")
+    bases = {}
     for j in range(n_sys):
         sk = sks[j % len(sks)]
         for attempt in range(len(E.INTS) + 1):          # walk through the whole integer pool until ppci can encode it
@@ -269,8 +321,18 @@ def class_instances(cfg, gen, cls, plan, rng, reduced):
             if gen.encodable(s):
                 seen.add(key)
                 out.append(s)
+                bases.setdefault(j % len(sks), s)
                 break
             fails += 1
+    # boundary pass: every integer operand (nested constructor operands included) of every sampled constructor
+    # combination takes 0, 1, -1, its extreme encodable values and a random one
+    if boundary and not reduced:
+        for _k, base in sorted(bases.items()):
+            for s in boundary_instances(cfg, gen, base, rng, small):
+                key = repr(s.describe(cfg))
+                if key not in seen:
+                    seen.add(key)
+                    out.append(s)
     tries = 0
     want = len(out) + n_rand
     while len(out) < want and tries < 8 * n_rand:
@@ -383,7 +445,10 @@ def _check(ctx, cfgs, plan, ties, use_driver):
         c = collections.Counter()
         for cls in cfg.instructions:
             reduced = bool(base and cls in cfgs[base].name_of)
-            insts, fails = class_instances(cfg, gen, cls, plan, ctx.rng, reduced)
+            ci = c["classes"]
+            # quick tier: boundary pass for every class of arm/thumb/x86_64/riscv, elsewhere for a seed-rotated third
+            boundary = ctx.thorough or key in FULL_BOUNDARY or (ci + ctx.seed) % 3 == 0
+            insts, fails = class_instances(cfg, gen, cls, plan, ctx.rng, reduced, boundary)
             c["classes"] += 1
             c["not_encodable_candidates"] += fails
             if not insts:
